@@ -86,11 +86,9 @@ type wrappedSlidingWindowDetector struct {
 	init       bool
 }
 
-func (d *wrappedSlidingWindowDetector) Check(seq uint64) (func() bool, bool) {
-	if seq > d.maxSeq {
-		// Exceeded upper limit.
-		return nop, false
-	}
+// distance returns how far seq lies behind the head of the window (negative: ahead of it)
+// and the head it was measured from.
+func (d *wrappedSlidingWindowDetector) distance(seq uint64) (uint64, int64) {
 	latestSeq := d.latestSeq
 	if !d.init {
 		// Nothing accepted yet: the window is positioned by the first accept().
@@ -109,6 +107,16 @@ func (d *wrappedSlidingWindowDetector) Check(seq uint64) (func() bool, bool) {
 		diff += int64(d.maxSeq + 1) //nolint:gosec // GG115 TODO check
 	}
 
+	return latestSeq, diff
+}
+
+func (d *wrappedSlidingWindowDetector) Check(seq uint64) (func() bool, bool) {
+	if seq > d.maxSeq {
+		// Exceeded upper limit.
+		return nop, false
+	}
+
+	_, diff := d.distance(seq)
 	if diff >= int64(d.windowSize) { //nolint:gosec // GG115 TODO check
 		// Too old.
 		return nop, false
@@ -121,6 +129,12 @@ func (d *wrappedSlidingWindowDetector) Check(seq uint64) (func() bool, bool) {
 	}
 
 	return func() bool {
+		// Other numbers may have been accepted since Check: measure the distance again.
+		latestSeq, diff := d.distance(seq)
+		if diff >= int64(d.windowSize) { //nolint:gosec // GG115 TODO check
+			// Fell behind the window in the meantime; nothing to record.
+			return false
+		}
 		if !d.init {
 			d.latestSeq = latestSeq
 			d.init = true
